@@ -1,8 +1,8 @@
 (* C11/ProofsPipeline.v : Preprocessing, placer contract, acceptance predicates and the
    composition theorem of the transpiler pipeline. *)
 From Coq Require Import List Arith Bool Lia.
-From QV Require Import C09.Trace C09.ModelRouter C09.ModelBlocks C09.ProofsRouter C09.ProofsBlocks
-                       C09.ProofsSem C11.ModelPipeline.
+From QV Require Import C09.Trace C09.ModelRouter C09.ModelBlocks C09.ModelStar C09.ModelDag C09.ProofsRouter
+                       C09.ProofsBlocks C09.ProofsStar C09.ProofsDag C09.ProofsSem C11.ModelPipeline.
 Import ListNotations.
 
 (* ------------------------------------------------------------------ small facts *)
@@ -335,4 +335,162 @@ Proof.
   apply run_gates_eq; [apply i_act_eq|].
   apply i_sym.
   apply (sem_teq _ _ (i_refl n I) (i_sym n I) (i_trans n I) _ (i_act_eq n I) (i_comm n I)). exact T.
+Qed.
+
+
+(* ------------------------------------------------------------------ restrict_connectivity_qubits / on_qubits *)
+Lemma has_edge_filter f G a b :
+  has_edge (filter f G) a b = true <->
+  exists e, In e G /\ f e = true /\ ((fst e = a /\ snd e = b) \/ (fst e = b /\ snd e = a)).
+Proof.
+  unfold has_edge. rewrite existsb_exists. split.
+  - intros (e & He & C). apply filter_In in He. destruct He as [He Fe]. exists e. split; auto. split; auto.
+    apply orb_prop in C. destruct C as [C|C]; apply andb_prop in C; destruct C as [C1 C2];
+      apply Nat.eqb_eq in C1, C2; auto.
+  - intros (e & He & Fe & C). exists e. split; [apply filter_In; auto|].
+    destruct C as [[<- <-]|[<- <-]]; rewrite !Nat.eqb_refl; cbn; auto. apply orb_true_r.
+Qed.
+
+Lemma has_edge_exists G a b :
+  has_edge G a b = true <-> exists e, In e G /\ ((fst e = a /\ snd e = b) \/ (fst e = b /\ snd e = a)).
+Proof.
+  unfold has_edge. rewrite existsb_exists. split.
+  - intros (e & He & C). exists e. split; auto.
+    apply orb_prop in C. destruct C as [C|C]; apply andb_prop in C; destruct C as [C1 C2];
+      apply Nat.eqb_eq in C1, C2; auto.
+  - intros (e & He & C). exists e. split; auto.
+    destruct C as [[<- <-]|[<- <-]]; rewrite !Nat.eqb_refl; cbn; auto. apply orb_true_r.
+Qed.
+
+Theorem restrict_spec d qs d' :
+  restrict d qs = Some d' ->
+  dnodes d' = qs /\
+  (forall q, In q qs -> In q (dnodes d)) /\
+  (forall a b, has_edge (dedges d') a b = true <->
+               has_edge (dedges d) a b = true /\ In a qs /\ In b qs) /\
+  (* connectedness: every selected node is linked to the first one by restricted edges *)
+  (forall v w, hd_error qs = Some v -> In w qs -> path (sym_edges (dedges d')) v w).
+Proof.
+  unfold restrict. destruct (subsetb qs (dnodes d)) eqn:S; [|discriminate].
+  set (es := filter (fun e => mem (fst e) qs && mem (snd e) qs) (dedges d)).
+  destruct (connectedb qs es) eqn:C; [|discriminate]. intro H. inversion H; subst d'; clear H. cbn [dnodes dedges].
+  split; [reflexivity|]. split; [apply subsetb_In; exact S|]. split.
+  - intros a b. unfold es. rewrite has_edge_filter, has_edge_exists. split.
+    + intros (e & He & Fe & Cab). apply andb_prop in Fe. destruct Fe as [F1 F2].
+      apply mem_In in F1, F2. split; [exists e; auto|].
+      destruct Cab as [[<- <-]|[<- <-]]; auto.
+    + intros ((e & He & Cab) & Ha & Hb). exists e. split; auto. split; auto.
+      apply andb_true_intro. destruct Cab as [[-> ->]|[-> ->]]; split; apply mem_In; auto.
+  - intros v w Hv Hw. unfold connectedb in C. destruct qs as [|v0 qs']; [discriminate|].
+    cbn in Hv. inversion Hv; subst v0. rewrite forallb_forall in C. specialize (C w Hw). apply mem_In in C.
+    apply (reach_set_sound (sym_edges es) v (length (v :: qs')) [v]); auto. intros x [<-|[]]. apply path_refl.
+Qed.
+
+Theorem restrict_none d qs :
+  restrict d qs = None <->
+  (exists q, In q qs /\ ~ In q (dnodes d)) \/
+  connectedb qs (filter (fun e => mem (fst e) qs && mem (snd e) qs) (dedges d)) = false.
+Proof.
+  unfold restrict. destruct (subsetb qs (dnodes d)) eqn:S.
+  - destruct (connectedb qs _) eqn:C; split; intro H; try discriminate; auto.
+    destruct H as [(q & Hq & Nq)|H]; [|discriminate]. exfalso. apply Nq. eapply subsetb_In; eauto.
+  - split; auto. intros _. left. unfold subsetb in S.
+    destruct (forallb_forall (fun q => mem q (dnodes d)) qs) as [_ F].
+    destruct (existsb (fun q => negb (mem q (dnodes d))) qs) eqn:Ex.
+    + apply existsb_exists in Ex. destruct Ex as (q & Hq & Nq). exists q. split; auto.
+      intro Hin. apply mem_In in Hin. rewrite Hin in Nq. discriminate.
+    + exfalso. rewrite F in S; [discriminate|]. intros q Hq.
+      destruct (mem q (dnodes d)) eqn:M; auto. exfalso.
+      assert (existsb (fun q => negb (mem q (dnodes d))) qs = true).
+      { apply existsb_exists. exists q. split; auto. rewrite M. reflexivity. }
+      congruence.
+Qed.
+
+(* a circuit accepted on the restricted device is executable on the full device *)
+Theorem restrict_mono d qs d' c :
+  restrict d qs = Some d' -> spec_connectivity d' c = true -> spec_connectivity d c = true.
+Proof.
+  intros R H. destruct (restrict_spec d qs d' R) as (_ & _ & E & _).
+  unfold spec_connectivity in *. rewrite forallb_forall in *. intros g Hg. specialize (H g Hg).
+  destruct (is_meas g); auto. cbn in *. destruct (gqs g) as [|a [|b [|z r]]]; auto.
+  apply E in H. tauto.
+Qed.
+
+(* ------------------------------------------------------------------ StarConnectivityPlacer (concrete model) *)
+Lemma swap_entries_length (l : list nat) i j : length (swap_entries l i j) = length l.
+Proof. unfold swap_entries. rewrite !upd_length. reflexivity. Qed.
+
+Lemma swap_entries_at (l : list nat) i j k : i < length l -> j < length l ->
+  at_ (swap_entries l i j) k = if k =? j then at_ l i else if k =? i then at_ l j else at_ l k.
+Proof.
+  intros Li Lj. unfold swap_entries.
+  destruct (Nat.eq_dec k j) as [->|Nj].
+  - rewrite Nat.eqb_refl. apply at_upd_eq. rewrite upd_length. exact Lj.
+  - apply Nat.eqb_neq in Nj as Ej. rewrite Ej. rewrite at_upd_neq by congruence.
+    destruct (Nat.eq_dec k i) as [->|Ni].
+    + rewrite Nat.eqb_refl. apply at_upd_eq. exact Li.
+    + apply Nat.eqb_neq in Ni as Ei. rewrite Ei. apply at_upd_neq. congruence.
+Qed.
+
+Lemma swap_entries_In (l : list nat) i j x : i < length l -> j < length l ->
+  (In x (swap_entries l i j) <-> In x l).
+Proof.
+  intros Li Lj. split; intro H.
+  - destruct (In_nth _ _ 0 H) as (k & Lk & Ek). rewrite swap_entries_length in Lk.
+    change (nth k (swap_entries l i j) 0) with (at_ (swap_entries l i j) k) in Ek.
+    rewrite swap_entries_at in Ek by assumption. rewrite <- Ek.
+    destruct (k =? j); [apply nth_In; exact Li|]. destruct (k =? i); apply nth_In; assumption.
+  - destruct (In_nth _ _ 0 H) as (k & Lk & Ek). change (nth k l 0) with (at_ l k) in Ek.
+    destruct (Nat.eq_dec k i) as [->|Ni].
+    + assert (E : at_ (swap_entries l i j) j = x) by (rewrite swap_entries_at by assumption; rewrite Nat.eqb_refl; exact Ek).
+      rewrite <- E. apply nth_In. rewrite swap_entries_length. exact Lj.
+    + destruct (Nat.eq_dec k j) as [->|Nj].
+      * assert (E : at_ (swap_entries l i j) i = x).
+        { rewrite swap_entries_at by assumption. destruct (i =? j) eqn:Eij.
+          - apply Nat.eqb_eq in Eij. rewrite Eij. exact Ek.
+          - rewrite Nat.eqb_refl. exact Ek. }
+        rewrite <- E. apply nth_In. rewrite swap_entries_length. exact Li.
+      * assert (E : at_ (swap_entries l i j) k = x).
+        { rewrite swap_entries_at by assumption. apply Nat.eqb_neq in Ni, Nj. rewrite Nj, Ni. exact Ek. }
+        rewrite <- E. apply nth_In. rewrite swap_entries_length. exact Lk.
+Qed.
+
+Lemma star_placer_scan_lt n mid : forall queue nm,
+  (forall g q, In g queue -> In q (gqs g) -> q < n) ->
+  star_placer_scan n mid queue = Some (Some nm) -> nm < n.
+Proof.
+  induction queue as [|g rest IH]; intros nm W H; cbn [star_placer_scan] in H; [discriminate|].
+  assert (W' : forall g0 q, In g0 rest -> In q (gqs g0) -> q < n) by (intros g0 q Hg; apply W; right; exact Hg).
+  destruct (is_meas g); [apply IH; auto|].
+  destruct (2 <? nq g); [discriminate|].
+  destruct (gqs g) as [|a [|b [|c r]]] eqn:Eg; try (apply IH; auto; fail).
+  destruct (negb (mem mid [a; b])); [|apply IH; auto].
+  destruct (find_connected a (if a =? b then [a] else [a; b]) rest (seq 0 n)) as [x|] eqn:F; [|discriminate].
+  cbn in H. inversion H; subst x.
+  assert (Ha : a < n) by (apply (W g a); [left; reflexivity | rewrite Eg; left; reflexivity]).
+  assert (Hb : b < n) by (apply (W g b); [left; reflexivity | rewrite Eg; right; left; reflexivity]).
+  destruct (find_connected_in _ _ _ _ _ F) as [->|Hin]; auto.
+  destruct (a =? b); cbn in Hin; intuition; subst; auto.
+Qed.
+
+Theorem star_placer_contract d c mid w' :
+  assert_placement d c = true -> mid < cn c ->
+  (forall g q, In g (cgates c) -> In q (gqs g) -> q < cn c) ->
+  star_placer mid c = Some w' ->
+  placer_contract d c w' = true.
+Proof.
+  intros AP Lm W H. unfold star_placer in H.
+  destruct (star_placer_scan (cn c) mid (cgates c)) as [[nm|]|] eqn:S; try discriminate.
+  - inversion H; subst w'; clear H.
+    pose proof (star_placer_scan_lt _ _ _ _ W S) as Ln. unfold cn in *.
+    unfold placer_contract. rewrite AP. cbn [andb].
+    unfold assert_placement, cn in AP. apply andb_prop in AP. destruct AP as [A1 A2].
+    rewrite swap_entries_length, A1. cbn [andb].
+    unfold same_set in *. apply andb_prop in A2. destruct A2 as [S1 S2].
+    apply andb_true_intro. split; apply subsetb_intro; intros q Hq.
+    + apply (subsetb_In _ _ S1). apply (swap_entries_In _ mid nm q Lm Ln). exact Hq.
+    + apply (swap_entries_In _ mid nm q Lm Ln). apply (subsetb_In _ _ S2). exact Hq.
+  - inversion H; subst w'; clear H. unfold placer_contract. rewrite AP. cbn [andb].
+    unfold assert_placement in AP. apply andb_prop in AP. destruct AP as [A1 A2]. unfold cn in A1.
+    rewrite A1, A2. reflexivity.
 Qed.
